@@ -493,6 +493,15 @@ def _await_descriptor_upload(tor_protocol, onion, progress, await_all_uploads):
     # caller can do "d = _await_descriptor_upload()", then add the
     # service.
     yield tor_protocol.add_event_listener('HS_DESC', hs_desc)
+
+    # no more events will arrive once the control connection is gone
+    def connection_lost(arg):
+        if not uploaded.called:
+            uploaded.errback(arg)
+        return None
+    if hasattr(tor_protocol, 'when_disconnected'):
+        tor_protocol.when_disconnected().addBoth(connection_lost)
+
     try:
         yield uploaded
     except Exception:
